@@ -378,6 +378,14 @@ PROPS["C17"] = {
 }
 
 
+PROPS["C17"]["rule"] += (" One pass of the real process_heartbeat_timers over real timers (heartbeat_pass probe): "
+    "intervals of 400 / 600 ms, the thread away for 1.5 h / 2.5 h / 3.4 h (several entries due at once), with and "
+    "without output pending. SilentBusy (real time, h = 1 s): output queued behind a stalled transport, the "
+    "server's last byte at 0.45 s, the I/O thread kept busy 2.2 - 2.6 s so that the tx and the rx timer are due in "
+    "one pass.")
+PROPS["C17"]["explanation"] += (" C17_missed_not_masked / C17_pass_ok (the loop over the timer). HbPass cases: "
+    "what the pass reported and what it left in the out-buffer must equal Model.Core.heartbeat_timers on the entries "
+    "due; oracle: 2h of silence is reported in the pass that finds it, less is not.")
 PROPS["C06"]["check_mods"].append("C06core")
 PROPS["C06"]["drivers"].append({"name": "c06core", "n_quick": 48, "n_thorough": 2000, "timeout": 3000})
 PROPS["C06"]["rule"] += (" At the level of the I/O thread (c06core: real handle_steady_event -> Inner::read_from_stream -> "
